@@ -3,7 +3,7 @@
    (labels, parent-relative offsets, children); flatten t is the sequence of label tuples it denotes. *)
 Require Import SF.Prelude SF.PySlice SF.Hier.
 Require Import Gen.Gen_c05.
-Require Import Proofs.HierBfs Proofs.HierViews Proofs.HierHloc Proofs.HierCols Proofs.HierLookup Proofs.HierGO Proofs.HierSpec Proofs.HierAll.
+Require Import Proofs.HierBfs Proofs.HierViews Proofs.HierHloc Proofs.HierCols Proofs.HierLookup Proofs.HierGO Proofs.HierSpec Proofs.HierDrop Proofs.HierAll.
 
 (* The deque walk of IndexLevel.__iter__ (what list(ih) runs) yields exactly the depth-first sequence of
    label tuples, for every tree of uniform depth: any depth, any ragged fan-out. *)
@@ -142,6 +142,17 @@ Theorem C05_hloc_selects_matching : forall (A : Type) (eqb : A -> A -> bool),
       exists i row, nth_error (flatten t) i = Some row /\ p = Z.of_nat i /\ row_match A eqb key 0 row = true.
 Proof. exact hloc_selects_matching. Qed.
 Print Assumptions C05_hloc_selects_matching.
+
+(* level_drop(-1): the tree the implementation leaves behind (the model M_drop_inner, compared node by node with the real
+   tree on every run) denotes exactly the specified tuples -- every tuple without its last component, the rows of one
+   former leaf collapsed into one.  What it gets wrong is only the offsets (Refuted: C05_level_drop_inner_offsets_refuted). *)
+Theorem C05_level_drop_tuples : forall (A : Type) (eqb : A -> A -> bool),
+  (forall x y, eqb x y = true <-> x = y) ->
+  forall (t : level A) (h : nat),
+    uniform (S h) t = true -> labels_ok A eqb t = true ->
+    flatten (M_drop_inner A t) = S_drop_inner A eqb (flatten t).
+Proof. exact drop_inner_tuples. Qed.
+Print Assumptions C05_level_drop_tuples.
 
 (* The source still has the shape the implementation model M is written against (regenerated every run). *)
 Theorem C05_source_shape :
